@@ -50,6 +50,14 @@ CHECKS = {
     note='Trusted: clang lowering (validated per run), irsym, z3, log as uninterpreted function, normal_distribution::operator() stubbed as mean+stddev*Z (Z arbitrary real). The removal loop of the solver is covered by C08.',
     technique='symbolic execution of LLVM IR + z3 (LRA/NRA with uninterpreted log)',
     design='3/C04'),
+ 'C20': dict(
+    level='other',
+    text=('Bounded symbolic checking of the grid index arithmetic from the LLVM IR of uspg_3d/uspg_4d: (O1) the IEEE-754 expression DAG of update_dimensions + get_3d_voxel_index is printed as C per path and cbmc '
+          '(bit-precise doubles) proves that every point inside the declared box, faces and corners included, maps to an index < voxel count, for all doubles within the stated magnitudes; (O2) the same in exact reals (z3); '
+          '(O3) z3 proves that the linear index equals z*nx*ny + y*nx + x over mathematical integers (no 32-bit wrap) for counts < 2^21 per axis. Retrievability/neighbourhood completeness on containers are not yet part of the claim.'),
+    note='Trusted: clang lowering (validated per run), irsym bit-precise mode, cbmc --floatbv (minisat + kissat portfolio) and its floor/ceil models, z3. Assumptions: finite inputs, |coordinate| <= 1e6, 1e-9 <= voxel <= 1e6, extent/voxel <= 1e6; vector growth stubbed.',
+    technique='symbolic execution of LLVM IR; bit-precise path DAG -> C -> cbmc; z3 for exact-real/integer obligations; native replay',
+    design='3/C20'),
 }
 
 NOT_APPLICABLE = {
